@@ -85,9 +85,9 @@ impl<'tcx> CFormatter<'tcx> {
             hir::Type::Slice(hir::Slice::Strs(encoding)) => {
                 self.diplomat_namespace(
                 match encoding {
-                    StringEncoding::UnvalidatedUtf8 => "OptionStringsView".into(),
                     StringEncoding::UnvalidatedUtf16 => "OptionStrings16View".into(),
-                    _ => unimplemented!("Utf8 StringEncoding unsupported")
+                    // Utf8 and UnvalidatedUtf8 share DiplomatStringsView, see fmt_strs_view_name
+                    _ => "OptionStringsView".into(),
                     }
                 ).to_string()
             },
